@@ -197,6 +197,38 @@ def run_driver_gen(args, timeout=7200):
     return p.returncode, p.stdout, p.stderr
 
 
+THOROUGH_SEEDS = 6
+
+
+def explore_many(prop, tier, seed, log):
+    """quick: one seed.  thorough: THOROUGH_SEEDS seeds explored in parallel and merged (ids are
+    prefixed with the seed's rank so that they stay unique)."""
+    if tier != "thorough":
+        return explore(prop, tier, seed, log)
+    import concurrent.futures
+    with concurrent.futures.ThreadPoolExecutor(max_workers=THOROUGH_SEEDS) as ex:
+        parts = list(ex.map(lambda k: explore(prop, tier, seed + k, log), range(THOROUGH_SEEDS)))
+    m = dict(cases=[], impl={}, model={}, oracle_fail=[], oracle_pass=0, stats={}, samples=[], expect={}, errors=[])
+    for k, r in enumerate(parts):
+        pre = f"s{k}."
+        m["cases"] += [pre + c for c in r["cases"]]
+        for key in ("impl", "model", "expect"):
+            for i, v in r[key].items():
+                m[key][pre + i] = v
+        for f in r["oracle_fail"]:
+            f = dict(f)
+            f["id"] = pre + f["id"]
+            m["oracle_fail"].append(f)
+        m["oracle_pass"] += r["oracle_pass"]
+        for a, b in r["stats"].items():
+            m["stats"][a] = m["stats"].get(a, 0) + b
+        if k == 0:
+            m["samples"] = r["samples"]
+        m["errors"] += r["errors"]
+    log.append(f"thorough: seeds {seed}..{seed + THOROUGH_SEEDS - 1} merged")
+    return m
+
+
 # per-property canonicalisation of what is compared (DESIGN §4.2): errors only as finely as the
 # property needs.  Default: exact equality of the canonical result strings.
 def canon(prop, s):
@@ -323,7 +355,7 @@ def main():
     if h_ok:
         # a broken proof or tie widens the search (thorough budget) for a failing input
         search_tier = tier if p_ok else "thorough"
-        E = explore(prop, search_tier if P.get("driver_ok", True) else tier, seed, log)
+        E = explore_many(prop, search_tier if P.get("driver_ok", True) else tier, seed, log)
         for line in E["cases"]:
             i = line.partition(" ")[0]
             a, b = E["impl"].get(i), E["model"].get(i)
